@@ -5,10 +5,15 @@ import (
 	"encoding/hex"
 	"encoding/json"
 	"fmt"
+	"go/ast"
+	"go/parser"
+	"go/token"
 	"io"
 	"os"
 	"os/exec"
+	"path/filepath"
 	"sort"
+	"strconv"
 	"strings"
 
 	seccomp "github.com/elastic/go-seccomp-bpf"
@@ -162,8 +167,19 @@ func checkC12(tier, replay string) int {
 		}
 	}
 	// (e) table-less and unknown names are unsupported
-	unsupported := []string{"ppc", "ppc64", "ppc64le", "s390", "s390x", "mips", "mipsle", "mips64", "mips64n32", "mips64p32", "mipsel64", "mips64le", "mipsel64n32", "mips64p32le",
-		"riscv64", "loong64", "wasm", "sparc64", "x86", "x64", "amd64 ", " amd64", "amd", "i486", "armv7", "arm64be", "aarch32", "x86-64", "X86_64\x00", "unknown", "\x00"}
+	// every architecture the kernel has an AUDIT_ARCH name for, other than the five with tables, in the kernel's spelling
+	var auditOnly []string
+	for k := range o.AuditArch {
+		n := strings.ToLower(k)
+		switch n {
+		case "x86_64", "i386", "arm", "aarch64":
+		default:
+			auditOnly = append(auditOnly, n)
+		}
+	}
+	sort.Strings(auditOnly)
+	unsupported := append(auditOnly, "armbe", "ppc", "ppc64", "ppc64le", "s390", "s390x", "mips", "mipsle", "mips64", "mips64n32", "mips64p32", "mipsel64", "mips64le", "mipsel64n32", "mips64p32le",
+		"riscv64", "loong64", "wasm", "sparc64", "x86", "x64", "amd64 ", " amd64", "amd", "i486", "armv7", "arm64be", "aarch32", "x86-64", "X86_64\x00", "unknown", "\x00")
 	for _, n := range unsupported {
 		for _, v := range caseVariants(n) {
 			aliasChecks++
@@ -203,6 +219,10 @@ func checkC12(tier, replay string) int {
 			ctx.Violation("C12:"+t+":nondeterministic", fmt.Sprintf("%s: the name table differs between %d fresh processes (%d distinct contents)", t, procs, len(set)), map[string]any{"table": t})
 		}
 	}
+	// (i) every audit-architecture constant the package declares (arch/zarches.go), used by an exported Info or not, against
+	// the kernel's AUDIT_ARCH_* of the same name
+	consts := c12AuditConstants(ctx)
+	ctx.Cov["audit_constants_declared_and_compared"] = consts
 	// (g) the tables are read-only data: no sequence of library operations changes them
 	stabSeqs, stabOps := c12Stability(ctx, tier)
 	ctx.Cov["operation_sequences_after_which_the_tables_were_rehashed"] = stabSeqs
@@ -217,7 +237,7 @@ func checkC12(tier, replay string) int {
 	ctx.Cov["entries_no_oracle_lists"] = unoracled
 	ctx.Cov["alias_and_unsupported_spellings"] = aliasChecks
 	ctx.Cov["fresh_processes_compared"] = procs
-	ctx.Cov["rule"] = "every (number, name) and (name, number) entry of the five tables is checked for mutual inversion and unambiguity, compared with every independent source that lists the name (kernel UAPI unistd headers of this image, Go's syscall tables, x/sys v0.48 tables; vendored in oracles.json) and for name agreement at the same number; every architecture variable's ID with AUDIT_ARCH_* from linux/audit.h; every alias in all single-letter case variants; 31 table-less or unknown names in case variants; table contents across fresh processes; table contents (commutative hash of both maps of all five tables plus ID/Name) after every sequence of library operations up to the stated depth over an alphabet of Validate/Assemble/Dump with canonical, re-cased, SYS_/__NR_/sys_-prefixed, foreign-architecture, numeric, empty and unknown names on every architecture, with and without conditions, and GetInfo with alias/unsupported spellings - the state must stay the initial one; the generator arch/mk_syscalls_linux.go of the tree is built and run offline against a local mirror (CONNECT proxy + throw-away certificate): once on kernel source files reconstructed from the checked-in tables with extra oabi rows, comments, __NR3264_ defines, sync_file_range2 and the __NR_syscalls sentinel (the output must be the checked-in tables again) and on 27 synthetic trees = every assignment of ABI columns {common,64,x32} / {common,oabi,eabi} to three rows (the output must equal an independent model of the ABI rules); non-trivial = entries for which an independent source exists"
+	ctx.Cov["rule"] = "every (number, name) and (name, number) entry of the five tables is checked for mutual inversion and unambiguity, compared with every independent source that lists the name (kernel UAPI unistd headers of this image, Go's syscall tables, x/sys v0.48 tables; vendored in oracles.json) and for name agreement at the same number; every architecture variable's ID and every auditArch* constant declared in arch/*.go with AUDIT_ARCH_* from linux/audit.h; every kernel audit-architecture name without a table must be unsupported; every alias in all single-letter case variants; 31 table-less or unknown names in case variants; table contents across fresh processes; table contents (commutative hash of both maps of all five tables plus ID/Name) after every sequence of library operations up to the stated depth over an alphabet of Validate/Assemble/Dump with canonical, re-cased, SYS_/__NR_/sys_-prefixed, foreign-architecture, numeric, empty and unknown names on every architecture, with and without conditions, and GetInfo with alias/unsupported spellings - the state must stay the initial one; the generator arch/mk_syscalls_linux.go of the tree is built and run offline against a local mirror (CONNECT proxy + throw-away certificate): once on kernel source files reconstructed from the checked-in tables with extra oabi rows, comments, __NR3264_ defines, sync_file_range2 and the __NR_syscalls sentinel (the output must be the checked-in tables again) and on 27 synthetic trees = every assignment of ABI columns {common,64,x32} / {common,oabi,eabi} to three rows (the output must equal an independent model of the ABI rules); non-trivial = entries for which an independent source exists"
 	ctx.Sample(map[string]any{"table": "x86_64", "name": "execve", "library": arch.X86_64.SyscallNames["execve"], "kernel_uapi": o.Tables["x86_64"]["kernel_uapi"]["execve"], "go_syscall": o.Tables["x86_64"]["go_syscall"]["execve"]})
 	ctx.Sample(map[string]any{"alias": "AMD64", "resolves_to": "x86_64"})
 	ctx.Assumptions = []string{"oracles.json was generated from this image's kernel headers and Go/x-sys sources by oracles/gen.py (provenance inside the file)", "a source that does not list a name says nothing about it"}
@@ -372,4 +392,57 @@ func c12Stability(ctx *evid.Ctx, tier string) (int, int) {
 		}
 	}
 	return seqs, len(ops)
+}
+
+// c12AuditConstants parses the const declarations named auditArch<NAME> in the arch package of the tree under test.
+func c12AuditConstants(ctx *evid.Ctx) int {
+	repo := os.Getenv("VERIF_REPO")
+	if repo == "" {
+		repo = "/repo"
+	}
+	files, _ := filepath.Glob(filepath.Join(repo, "arch", "*.go"))
+	o := refsem.LoadOracles()
+	n := 0
+	for _, f := range files {
+		if strings.HasSuffix(f, "_test.go") {
+			continue
+		}
+		fset := token.NewFileSet()
+		af, err := parser.ParseFile(fset, f, nil, 0)
+		if err != nil {
+			continue
+		}
+		for _, d := range af.Decls {
+			gd, ok := d.(*ast.GenDecl)
+			if !ok || gd.Tok != token.CONST {
+				continue
+			}
+			for _, sp := range gd.Specs {
+				vs := sp.(*ast.ValueSpec)
+				for i, id := range vs.Names {
+					if !strings.HasPrefix(id.Name, "auditArch") || i >= len(vs.Values) {
+						continue
+					}
+					lit, ok := vs.Values[i].(*ast.BasicLit)
+					if !ok {
+						continue
+					}
+					v, err := strconv.ParseUint(lit.Value, 0, 64)
+					if err != nil {
+						continue
+					}
+					name := strings.ToUpper(strings.TrimPrefix(id.Name, "auditArch"))
+					want, listed := o.AuditArch[name]
+					if !listed {
+						continue // the kernel headers of this image have no constant of that name: nothing to compare with
+					}
+					n++
+					if uint32(v) != want {
+						ctx.Violation("C12:audit-constant:"+name, fmt.Sprintf("%s = %#x in %s, the kernel's AUDIT_ARCH_%s is %#x", id.Name, v, filepath.Base(f), name, want), map[string]any{"constant": id.Name})
+					}
+				}
+			}
+		}
+	}
+	return n
 }
